@@ -798,9 +798,17 @@ def translate_dynamics():
         if key not in cache:
             cache[key] = _methods(mod, fn.cls)
         node = cache[key].get(fn.name)
-        if node is None:
-            raise Untranslatable(f"{fn.cls}.{fn.name} not found")
-        ps, body = Tr(w, fn, node).run()
-        out.append(f"/-- `{mod.__name__.replace('.', '/')}.py`: `{fn.cls}.{fn.name}` -/\n"
-                   f"def {fn.lean.replace('Src.', '')} {ps} : {lean_ret(fn)} :=\n{body}")
+        try:
+            if node is None:
+                raise Untranslatable(f"{fn.cls}.{fn.name} not found")
+            ps, body = Tr(w, fn, node).run()
+            out.append(f"/-- `{mod.__name__.replace('.', '/')}.py`: `{fn.cls}.{fn.name}` -/\n"
+                       f"def {fn.lean.replace('Src.', '')} {ps} : {lean_ret(fn)} :=\n{body}")
+        except Untranslatable as e:
+            # this function left the subset the translator reads: a placeholder keeps the other functions (and the
+            # ties that do not depend on this one) checkable; the tie theorems of this function no longer hold
+            ps = " ".join(f"({p} : {LEAN_TYPE[t]})" for p, t in [("self", fn.self_ty)] + fn.params) + (" (u : Rat)" if fn.random else "")
+            why = str(e).replace("-/", "- /")
+            out.append(f"/-- UNTRANSLATABLE `{mod.__name__.replace('.', '/')}.py`: `{fn.cls}.{fn.name}` — {why} -/\n"
+                       f"def {fn.lean.replace('Src.', '')} {ps} : {lean_ret(fn)} := default\n")
     return "\n".join(out)
